@@ -185,7 +185,7 @@ for _case, _one, _two in (("int,str", INT, STR), ("str,int", STR, INT), ("item,s
         "las_items.SectionItems.mnemonic_compare", case=_case,
         params={"self": SI, "one": _one, "two": _two},
         ensures=lambda c: [("never-equal", z3.Not(c.res.t))],
-        returns=BOOL, properties=("C15",), noraise=True))
+        returns=BOOL, properties=("C15", "C07", "C14"), noraise=True))
 
 
 # ---------------------------------------------------------------- __contains__
@@ -268,7 +268,7 @@ GET_N = REG.add(Contract(
     requires=shape,
     raises=[("IndexError", out_of_range)],
     ensures=lambda c: [("list-position", c.res.t == View(c).item(norm_index(View(c).n, c.a["key"].t)))],
-    loops={0: lambda c: []}, returns=HI, properties=("C15", "C14", "C13")))
+    loops={0: lambda c: []}, returns=HI, properties=("C15", "C14", "C13", "C07")))
 
 
 # ---------------------------------------------------------------- __delitem__
@@ -613,4 +613,4 @@ def reduce_post(c):
 
 REDUCE = REG.add(Contract(
     "las_items.HeaderItem.__reduce__", params={"self": HI}, ensures=reduce_post,
-    properties=("C17",), noraise=True))
+    properties=("C17", "C13", "C03"), noraise=True))
